@@ -179,15 +179,15 @@ def _remove_matched_tasks(
         if itask:
             # remove active task from the pool
             fnums_to_remove = itask.match_flows(flow_nums)
-            if not fnums_to_remove:
-                not_removed.add(itask.tokens.task)
-                continue
-            removed[itask.tokens.task] = fnums_to_remove
-            if fnums_to_remove == itask.flow_nums:
-                schd.pool.remove(itask, 'request')
-                to_kill.append(itask)
-                itask.removed = True
-            itask.flow_nums.difference_update(fnums_to_remove)
+            # (if in the pool in other flows only, it may still have
+            # history, and children, in the flows to remove)
+            if fnums_to_remove:
+                removed[itask.tokens.task] = fnums_to_remove
+                if fnums_to_remove == itask.flow_nums:
+                    schd.pool.remove(itask, 'request')
+                    to_kill.append(itask)
+                    itask.removed = True
+                itask.flow_nums.difference_update(fnums_to_remove)
 
         # remove task from the DB
         tdef = schd.config.taskdefs[id_['task']]
